@@ -38,3 +38,86 @@ RECIPES = [
      "an unused local"),
     ("C05", "neutral", [], CYC, "    import pyyeti.rainflow.c_rain as rain\nexcept ImportError:", "    from pyyeti.rainflow import c_rain as rain\nexcept ImportError:", "from-import of the compiled module"),
 ]
+
+# ---------------------------------------------------------------------------------------------------------------------
+# pass 2 (index / pointer conventions, element types)
+_PY2_HEAD = ("    pts = np.empty(L)\n    rf = np.empty((L - 1, 3))\n    j = -1\n    fullcyclesp1 = 1  # full cycles plus 1\n    n = -1\n    cycle_index = np.empty(L, np.int64)\n")
+_PY_ENTRY = "    peaks = np.atleast_1d(peaks)\n"
+_PY1_PUSH = ("    n = -1\n    for k in range(L):\n        # /* step 1 from [1]: */\n        j += 1\n        pts[j] = peaks[k]\n")
+_PY2_PUSH = ("    for k in range(L):\n        # /* step 1 from [1]: */\n        j += 1\n        pts[j] = peaks[k]\n        cycle_index[j] = k\n")
+_PY1_HALF = ("                rf[n, 0] = Y / 2\n                rf[n, 1] = (pts[0] + pts[1]) / 2\n                rf[n, 2] = 0.5\n                pts[0] = pts[1]  # /* discard j-2 pt */\n"
+             "                pts[1] = pts[2]\n                j = 1\n")
+_PY1_STEP6 = ("    A = pts[0]\n    for k in range(j):\n        B = pts[k + 1]\n        n += 1\n        rf[n, 0] = abs(A - B) / 2\n        rf[n, 1] = (A + B) / 2\n        rf[n, 2] = 0.5\n        A = B\n\n"
+              "    return rf[: L - fullcyclesp1]\n")
+_C1_HALF = ("          *rf++ = 0.5;\n          pts[0] = pts[1];  /* discard j-2 pt */\n          pts[1] = pts[2];\n          j = 1;\n")
+_C1_LOOP = ("    double *rf = (double *)PyArray_DATA(rf_array);\n\n    j = -1;\n    for (k=0; k<L; ++k) {\n")
+_C_LEN = ("    if (ndim == 1)\n        L = PyArray_DIM(peaks_array, 0);\n    else\n        L = 0;\n")
+_CYC_TRY = ("try:\n    import pyyeti.rainflow.c_rain as rain\nexcept ImportError:\n    if not HAVE_NUMBA:")
+_C1_STORE = ("    double *rf = (double *)PyArray_DATA(rf_array);\n\n    j = -1;\n    for (k=0; k<L; ++k) {\n      /* step 1 from [1]: */\n      pts[++j] = peaks[k];\n      /* step 2 from [1]: */\n"
+             "      while (j > 1) {\n        /* step 3 from [1]: */\n        Y = fabs(pts[j-2]-pts[j-1]);\n        X = fabs(pts[j-1]-pts[j]);\n        if (X < Y) break;\n        if (j == 2) {\n"
+             "          /* step 5 from [1]: */\n          /* [count Y as half cycle] */\n          *rf++ = Y/2;\n          *rf++ = (pts[0]+pts[1])/2;\n          *rf++ = 0.5;\n"
+             "          pts[0] = pts[1];  /* discard j-2 pt */\n          pts[1] = pts[2];\n          j = 1;\n        }\n        else {\n          /* step 4 from [1]: */\n"
+             "          /* [count Y as full cycle] */\n#ifdef USE_FASTER_RAINFLOW_ROUTINE\n          ++fullcyclesp1;\n#endif\n          *rf++ = Y/2;\n          *rf++ = (pts[j-2]+pts[j-1])/2;\n"
+             "          *rf++ = 1.0;\n          pts[j-2] = pts[j];  /* discard j-2, j-1 pts */\n          j -= 2;\n        }\n      }\n    }\n    /* step 6 from [1]: */\n"
+             "    /* [count all ranges in pts as half cycles] */\n    double A=pts[0], B;\n" + _C1_TAIL)
+
+
+def _rows2d(text, cols=3):
+    """the storing section of rainflow1 with the output written through a pointer to rows, rf[n][c]"""
+    import re
+    text = text.replace("double *rf = (double *)PyArray_DATA(rf_array);", f"double (*rf)[{cols}] = (double (*)[{cols}])PyArray_DATA(rf_array);\n    npy_intp n = 0;")
+    return re.sub(r"\*rf\+\+ = ([^;]+);\n(\s*)\*rf\+\+ = ([^;]+);\n\s*\*rf\+\+ = ([^;]+);", r"rf[n][0] = \1;\n\2rf[n][1] = \3;\n\2rf[n][2] = \4;\n\2++n;", text)
+
+
+RECIPES += [
+    # ---- break: element types (siblings of seeded change F: a buffer the ranges are computed in takes the caller's dtype)
+    ("C05", "break", ["C05-R8"], PY, _PY1_HEAD, _PY1_HEAD.replace("np.empty(L)", "np.empty_like(peaks)"), "_rainflow1: stack allocated like the input (its dtype)"),
+    ("C05", "break", ["C05-R8"], PY, _PY2_HEAD, _PY2_HEAD.replace("np.empty(L)", "np.empty(L, dtype=peaks.dtype)"), "_rainflow2: stack allocated with the input's dtype"),
+    ("C05", "break", ["C05-R8"], PY, _PY1_HEAD, _PY1_HEAD.replace("np.empty(L)", "np.zeros_like(peaks)"), "_rainflow1: zeros_like(peaks)"),
+    ("C05", "break", ["C05-R8"], PY, _PY1_HEAD, _PY1_HEAD.replace("np.empty((L - 1, 3))", "np.empty((L - 1, 3), peaks.dtype)"), "_rainflow1: the cycle table takes the input's dtype"),
+    ("C05", "break", ["C05-R8"], PY, _PY1_HEAD, _PY1_HEAD.replace("np.empty(L)", "np.empty(L, np.float32)"), "_rainflow1: single-precision stack"),
+    ("C05", "break", ["C05-R8"], PY, _PY_ENTRY, "    peaks = np.atleast_1d(peaks).astype(np.float32)\n", "the Python entry point narrows the data to float32"),
+    ("C05", "break", ["C05-R8"], PY, _PY_ENTRY, "    peaks = np.atleast_1d(np.asarray(peaks, dtype=int))\n", "the Python entry point truncates the data to integers"),
+    ("C05", "break", ["C05-R8"], C, "PyArray_FROM_OTF(peaks_obj, NPY_DOUBLE,", "PyArray_FROM_OTF(peaks_obj, NPY_FLOAT,", "the C entry point converts to float but the kernels read double*"),
+    # ---- break: the constructs the pass-2 front end newly understands are still decided
+    ("C05", "break", ["C05-R1", "C05-R3"], C, _C1_HALF, "          *rf++ = 0.5;\n          memmove(pts+1, pts, 2*sizeof(double));\n          j = 1;\n", "step 5 in C: block move in the wrong direction"),
+    ("C05", "break", ["C05-R1", "C05-R4"], C, _C1_TAIL, _C1_TAIL.replace("for (k=0; k<j; ++k) {\n      B = pts[k+1];", "k = 0;\n    while (k++ < j) {\n      B = pts[k+1];"),
+     "step 6 in C with a post-increment in the loop test but the old index"),
+    ("C05", "break", ["C05-R1", "C05-R4"], C, _C1_TAIL, _C1_TAIL.replace("k<j;", "k!=j+1;"), "step 6 in C runs one pass too many (equality loop test)"),
+    ("C05", "break", ["C05-R7"], CYC, _CYC_TRY, "try:\n    import pyyeti.rainflow.c_rain as rain\nexcept ImportError:\n    rain = None\n\nif rain is not None:\n    if not HAVE_NUMBA:",
+     "sentinel selection with the test inverted"),
+    ("C05", "break", ["C05-R1", "C05-R6"], PY, _PY1_HALF, _PY1_HALF.replace("rf[n, 0] = Y / 2\n                rf[n, 1] = (pts[0] + pts[1]) / 2\n                rf[n, 2] = 0.5\n", "rf[n] = (pts[0] + pts[1]) / 2, Y / 2, 0.5\n"),
+     "row store with amplitude and mean swapped"),
+    ("C05", "break", ["C05-R1", "C05-R3"], PY, _PY1_HALF, _PY1_HALF.replace("pts[0] = pts[1]  # /* discard j-2 pt */\n                pts[1] = pts[2]\n", "pts[0:2] = pts[0:2]\n"), "block move that moves nothing"),
+    ("C05", "break", ["C05-R1", "C05-R5"], PY, _PY2_PUSH, "    for k, pk in enumerate(peaks, 1):\n        # /* step 1 from [1]: */\n        j += 1\n        pts[j] = pk\n        cycle_index[j] = k\n",
+     "positions enumerated from 1"),
+    ("C05", "break", ["C05-R4"], C, _C1_STORE, _rows2d(_C1_STORE, 2), "output written through a pointer to rows of 2 doubles"),
+    ("C05", "break", ["C05-R8"], C, "    return Py_BuildValue(\"N\", rf_array);", "    Py_DECREF(rf_array);\n    return Py_BuildValue(\"N\", rf_array);", "the returned table is released before it is returned"),
+    # ---- neutral: element types
+    ("C05", "neutral", [], PY, _PY1_HEAD, _PY1_HEAD.replace("np.empty(L)", "np.empty_like(peaks, dtype=float)"), "empty_like with an explicit float dtype"),
+    ("C05", "neutral", [], PY, _PY1_HEAD, _PY1_HEAD.replace("np.empty(L)", "np.zeros(peaks.size, dtype=np.float64)").replace("np.empty((L - 1, 3))", "np.empty(shape=(L - 1, 3), dtype=float)"),
+     "allocation idioms (zeros, size of the input, keywords)"),
+    ("C05", "neutral", [], PY, _PY_ENTRY, "    peaks = np.atleast_1d(np.asarray(peaks, dtype=float))\n", "the Python entry point converts to float64 (what C does)"),
+    ("C05", "neutral", [], PY, _PY2_HEAD, _PY2_HEAD.replace("np.empty(L, np.int64)", "np.empty(L, dtype=\"int64\")"), "dtype given as a string"),
+    # ---- neutral: index / pointer / loop conventions
+    ("C05", "neutral", [], PY, _PY1_STEP6, _PY1_STEP6.replace("    for k in range(j):\n", "    k = 0\n    while k != j:\n").replace("        A = B\n", "        A = B\n        k += 1\n"), "step 6 with an equality loop test"),
+    ("C05", "neutral", [], PY, _PY1_STEP6, _PY1_STEP6.replace("rf[: L - fullcyclesp1]", "rf[: n + 1]"), "the returned prefix named by the row counter"),
+    ("C05", "neutral", [], PY, _PY1_STEP6, _PY1_STEP6.replace("abs(A - B) / 2", "np.abs(A - B) / 2"), "np.abs for abs"),
+    ("C05", "neutral", [], PY, _PY1_PUSH, "    n = -1\n    for pk in peaks:\n        # /* step 1 from [1]: */\n        j += 1\n        pts[j] = pk\n", "_rainflow1 iterates the input directly"),
+    ("C05", "neutral", [], PY, _PY2_PUSH, "    for k, pk in enumerate(peaks):\n        # /* step 1 from [1]: */\n        j += 1\n        pts[j] = pk\n        cycle_index[j] = k\n", "_rainflow2 enumerates the input"),
+    ("C05", "neutral", [], PY, _PY1_HALF, _PY1_HALF.replace("pts[0] = pts[1]  # /* discard j-2 pt */\n                pts[1] = pts[2]\n", "pts[0:2] = pts[1:3]\n"), "step 5 as a block move"),
+    ("C05", "neutral", [], PY, _PY1_HALF, _PY1_HALF.replace("rf[n, 0] = Y / 2\n                rf[n, 1] = (pts[0] + pts[1]) / 2\n                rf[n, 2] = 0.5\n", "rf[n, :] = (Y / 2, (pts[0] + pts[1]) / 2, 0.5)\n"),
+     "a row stored in one statement"),
+    ("C05", "neutral", [], PY, "    L = peaks.size if peaks.ndim == 1 else 0\n", "    L = np.size(peaks) if np.ndim(peaks) == 1 else 0\n", "np.size / np.ndim"),
+    ("C05", "neutral", [], CYC, _CYC_TRY, "try:\n    import pyyeti.rainflow.c_rain as rain\nexcept ImportError:\n    rain = None\n\nif rain is None:\n    if not HAVE_NUMBA:", "selection through a None sentinel"),
+    ("C05", "neutral", [], CYC, _CYC_TRY, "try:\n    import pyyeti.rainflow.c_rain\nexcept ImportError:\n    _HAVE_C_RAIN = False\nelse:\n    _HAVE_C_RAIN = True\n    rain = pyyeti.rainflow.c_rain\n\n"
+     "if not _HAVE_C_RAIN:\n    if not HAVE_NUMBA:", "selection through a flag and try / except / else"),
+    ("C05", "neutral", [], C, _C1_HALF, "          *rf++ = 0.5;\n          memmove(pts, pts+1, 2*sizeof(double));\n          j = 1;\n", "step 5 in C as memmove"),
+    ("C05", "neutral", [], C, _C1_TAIL, _C1_TAIL.replace("k<j;", "k!=j;"), "step 6 in C with an equality loop test"),
+    ("C05", "neutral", [], C, _C1_TAIL, _C1_TAIL.replace("for (k=0; k<j; ++k) {\n      B = pts[k+1];", "k = 0;\n    while (k++ < j) {\n      B = pts[k];"), "step 6 in C with a post-increment in the loop test"),
+    ("C05", "neutral", [], C, _C1_LOOP, "    double *rf = (double *)PyArray_DATA(rf_array);\n\n    for (k=0, j=-1; k<L; ++k) {\n", "comma operator in the for initialiser"),
+    ("C05", "neutral", [], C, "PyArray_SimpleNew(2, dims, NPY_INTP)", "PyArray_ZEROS(2, dims, NPY_INTP, 0)", "PyArray_ZEROS for PyArray_SimpleNew"),
+    ("C05", "neutral", [], C, _C_LEN, "    L = (ndim == 1) ? PyArray_SIZE(peaks_array) : 0;\n", "PyArray_SIZE and a conditional expression"),
+    ("C05", "neutral", [], C, _C1_STORE, _rows2d(_C1_STORE), "output written through a pointer to rows, rf[n][c]"),
+    ("C05", "neutral", [], C, "    return Py_BuildValue(\"N\", rf_array);", "    PyObject *res = Py_BuildValue(\"O\", rf_array);\n    Py_DECREF(rf_array);\n    return res;", "format O plus a release instead of format N"),
+]
